@@ -190,6 +190,13 @@ theorem C12_toDag_keeps_directed (p : PD) (res : List (Var × Var)) (h : p.toDag
     ∀ e ∈ p.directed, e ∈ res :=
   PD.toDag_keeps_directed p res h
 
+/-- **`PDAG.to_dag` invents no adjacency**: every edge of the result is a directed edge of the PDAG or an orientation
+    of one of its undirected edges (given as normalised pairs) - with `C12_toDag_keeps_directed`, the result has no
+    adjacency the PDAG lacks and no directed edge reversed or dropped -/
+theorem C12_toDag_only_orients (p : PD) (res : List (Var × Var)) (h : p.toDag = some res) :
+    ∀ e ∈ res, e ∈ p.directed ∨ e ∈ p.undirected.map normPair ∨ (e.2, e.1) ∈ p.undirected.map normPair :=
+  PD.toDag_only_orients p res h
+
 /-- non-vacuity: the chain PDAG 0 - 1 - 2 is converted -/
 example : (PD.mk [0, 1, 2] [] [(0, 1), (1, 2)]).toDag = some [(1, 0), (2, 1)] := by decide
 
